@@ -387,7 +387,8 @@ func runC11(c *fw.Case) {
 	}
 	runtime.GOMAXPROCS([]int{2, 4, 4, 8}[rng.Intn(4)])
 	kindIx := (c.No / np) % len(c11RootKinds)
-	relIx := (c.No / (np * len(c11RootKinds))) % len(c11Relations)
+	blk := c.No / np
+	relIx := (blk + blk/len(c11RootKinds)) % len(c11Relations)
 	if !c.Thorough() {
 		kindIx, relIx = rng.Intn(len(c11RootKinds)), rng.Intn(len(c11Relations))
 	}
